@@ -17,8 +17,8 @@ structure St where
 
 def strBytes (s : String) : Bytes := s.toUTF8.toList.map (·.toNat)
 
-def beginString : Bytes := strBytes AsyncFix.Generated.Proto.beginString
-def tbl : Tbl := AsyncFix.Generated.Proto.groups.map fun (g, ms) => (natToDec g, ms.map natToDec)
+def beginString : Bytes := AsyncFix.Generated.Proto.beginStringBytes
+def tbl : Tbl := AsyncFix.Generated.Proto.groupsBytes
 
 mutual
 def showNode : Node → List String
